@@ -376,7 +376,8 @@ impl Bitstr {
     }
 
     pub fn detach(self) -> Bitstr {
-        if Rc::strong_count(&self.data) == 1 {
+        if Rc::strong_count(&self.data) == 1 && self.range.start == 0 {
+            // sole owner of a buffer the value starts in: reuse it
             self
         } else if self.len() == 0 {
             Bitstr::new()
